@@ -4,7 +4,7 @@ import os
 import time
 import uuid
 from pathlib import PurePath
-from typing import Any, Optional, List, Union, Dict
+from typing import Any, Optional, List, Union, Dict, Tuple
 from collections import OrderedDict
 
 from .codec import codec_registry, CodecRegistry
@@ -235,9 +235,7 @@ class LocalFileStore(Store):
 
     def sync_paths(self, paths: "OrderedDict[DDSPath, PyHash]") -> None:
         for (path, key) in paths.items():
-            splits = [s.replace("/", "") for s in os.path.split(path)]
-            loc_dir = os.path.join(self._data_root, *(splits[:-1]))
-            loc = os.path.join(loc_dir, splits[-1])
+            loc_dir, loc = self._path_location(path)
             if not os.path.exists(loc_dir):
                 _logger.debug(f"Creating dir {loc_dir}")
                 os.makedirs(loc_dir, exist_ok=True)
@@ -252,14 +250,26 @@ class LocalFileStore(Store):
                 os.symlink(loc_blob, tmp_loc)
                 os.replace(tmp_loc, loc)
 
+    def _path_location(self, path: DDSPath) -> "Tuple[str, str]":
+        """
+        The directory and the location of the link for a path in the data directory.
+        Each segment of the path is a directory level: /a/b/c and /ab/c are different locations.
+        """
+        splits = [s for s in path.split("/") if s]
+        if not splits or any(s in (".", "..") for s in splits):
+            raise DDSException(
+                f"Path {path} cannot be mapped to a location in the data directory {self._data_root}"
+            )
+        loc_dir = os.path.join(self._data_root, *(splits[:-1]))
+        loc = os.path.join(loc_dir, splits[-1])
+        return loc_dir, loc
+
     def fetch_paths(self, paths: List[DDSPath]) -> "OrderedDict[DDSPath, PyHash]":
         res = OrderedDict()
         for path in paths:
             if path not in res:
                 # Assemble the path
-                splits = [s.replace("/", "") for s in os.path.split(path)]
-                loc_dir = os.path.join(self._data_root, *(splits[:-1]))
-                loc = os.path.join(loc_dir, splits[-1])
+                loc_dir, loc = self._path_location(path)
                 if not os.path.exists(loc_dir):
                     _logger.debug(f"Dir {loc_dir} does not exist")
                     raise DDSException(
